@@ -146,7 +146,33 @@ func runFastaFam(vec map[string]interface{}) map[string]interface{} {
 	if !ok {
 		timeout = true
 	}
-	obs["variants"] = map[string]interface{}{"err": errStr(err)}
+	vres := map[string]interface{}{"err": errStr(err)}
+	if _, isValid := vec["valid"]; isValid && err == nil && len(lrecs) > 0 {
+		// streams built as gap-free A/C/G/T alignments: the rows must be exactly the differences from s1 that the list
+		// reader's records show (a reference mangled by the scan shows here)
+		var ref string
+		for _, r := range lrecs {
+			if r.ID == "s1" {
+				ref = encoding.DecodeToString(r.Seq)
+			}
+		}
+		want := []string{"query,mutations"}
+		for _, r := range lrecs {
+			if r.ID == "s1" {
+				continue
+			}
+			q := encoding.DecodeToString(r.Seq)
+			var ms []string
+			for i := 0; i < len(q) && i < len(ref); i++ {
+				if q[i] != ref[i] {
+					ms = append(ms, "nuc:"+string(ref[i])+itoa(i+1)+string(q[i]))
+				}
+			}
+			want = append(want, r.ID+","+strings.Join(ms, "|"))
+		}
+		vres["ok"] = strings.Join(want, "\n")+"\n" == out.String()
+	}
+	obs["variants"] = vres
 	if timeout {
 		obs["timeout"] = true
 	}
